@@ -422,7 +422,8 @@ func genSpecBytes(t *rapid.T) ([]byte, string) {
 var patternAlphabet = []rune(`\|.?*+()[]{}$^-,:ab12xpPAF sdwLu=`)
 
 var hostilePatterns = []string{"", `\`, "(", ")", "[", "]", "{", "}", "[]", "[^]", "()", "a{", "a{1", "a{1,", "a{,1}", "a{2,1}", "[z-a]", `[\x0100]`, `[\xFFFFFFFF]`, `[\p{Greek}]`, `\p{`, `\p{Lu`, `\p{Nope}`, `[[:alpha:]`, `[:alpha:]`,
-	`\x`, `\x1`, `\xZZ`, `\x00`, `[\x00-\x7F]`, "a**", "a|", "|a", "^", "$", "^$", "a^", `\d-\w`, `[a-\d]`, `[\d-a]`, "é", "[é]", `(((((((a)))))))`, `a?{2}`, `(a|)`, `\x80`, `[\x80]`, `[a-\x7FFFFFFF]`, `[\x00110000-\x7FFFFFFF]x`, `[^a-\xFFFFFFFF]`}
+	`\x`, `\x1`, `\xZZ`, `\x00`, `[\x00-\x7F]`, "a**", "a|", "|a", "^", "$", "^$", "a^", `\d-\w`, `[a-\d]`, `[\d-a]`, "é", "[é]", `(((((((a)))))))`, `a?{2}`, `(a|)`, `\x80`, `[\x80]`, `[a-\x7FFFFFFF]`, `[\x00110000-\x7FFFFFFF]x`, `[^a-\xFFFFFFFF]`,
+	`[\xA0000020-\x23]`, `[\x7FFFFFFF-\x7FFFFFFF]`, `[\x80000000-\xFFFFFFFF]`, `[\xFFFFFFFE-a]`, `[\xFFFFFFFF-\x7FFFFFFF]`, `(a|[\x80000001-\x80000002])+`}
 
 var bigEscape = regexp.MustCompile(`\\x[0-9A-F]{5,8}`)
 
